@@ -18,7 +18,8 @@ type stmtSpec struct {
 	noBr  bool   // if: one simple statement without braces, no else
 	body  []stmtSpec
 	els   []stmtSpec   // plain else block (nil: none)
-	elifs [][]stmtSpec // else-if branches (one-line conditions)
+	elifs [][]stmtSpec // else-if branches
+	elifH []int        // heights (lines) of the else-if conditions; missing entries mean 1
 	cases [][]stmtSpec // switch: bodies of the case groups
 	deflt bool         // switch: default group present
 	fin   bool         // try: finally block present
@@ -68,16 +69,18 @@ type classSpec struct {
 // ---- rendering -----------------------------------------------------------------------------------------------------
 
 type bodyOut struct {
-	lines []string
-	conds [][3]int // top-level ifs: relative (ifLine, startLine, endLine), 0-based into lines
-	decoy []int    // relative '(' lines of conditions that are not top-level if conditions
-	tall  int
-	lam   int
-	tIf   int
-	tSw   int
-	nIf   int
-	nSw   int
-	eIf   int
+	lines    []string
+	conds    [][3]int // top-level ifs: relative (ifLine, startLine, endLine), 0-based into lines
+	decoy    []int    // relative '(' lines of conditions that are not top-level if conditions
+	elif     []int    // of those, the conditions of else-if branches
+	tallElif int
+	tall     int
+	lam      int
+	tIf      int
+	tSw      int
+	nIf      int
+	nSw      int
+	eIf      int
 }
 
 type renderer struct {
@@ -173,10 +176,24 @@ func (rd *renderer) stmt(s *stmtSpec, ind string, top bool, out *bodyOut) {
 		}
 		out.lines[end] += " {"
 		rd.stmts(s.body, ind+u, false, out)
-		for _, eb := range s.elifs {
-			ln := add(ind + "} else if (" + rd.operand() + ") {")
+		for bi, eb := range s.elifs {
+			eh := 1
+			if bi < len(s.elifH) && s.elifH[bi] > 1 {
+				eh = s.elifH[bi]
+			}
+			ecl := rd.condLines(eh)
+			ln := add(ind + "} else if " + ecl[0])
+			for k := 1; k < eh; k++ {
+				add(ind + u + u + ecl[k])
+			}
+			out.lines[len(out.lines)-1] += " {"
 			out.eIf++
 			out.decoy = append(out.decoy, ln)
+			out.elif = append(out.elif, ln)
+			if eh >= 4 {
+				out.tall++
+				out.tallElif++
+			}
 			rd.stmts(eb, ind+u, false, out)
 		}
 		if s.els != nil {
@@ -500,11 +517,15 @@ func (rd *renderer) renderMethod(w *writer, ms *methodSpec, ind string) Method {
 	m.TopIfs, m.TopSwitches = out.tIf, out.tSw
 	m.NestedIfs, m.NestedSwitches, m.ElseIfs, m.TallDecoys = out.nIf, out.nSw, out.eIf, out.tall
 	m.TypedLambdaParams = out.lam
+	m.TallElseIfs = out.tallElif
 	for _, c := range out.conds {
 		m.Conds = append(m.Conds, Cond{IfLine: bodyFirst + c[0], StartLine: bodyFirst + c[1], EndLine: bodyFirst + c[2]})
 	}
 	for _, d := range out.decoy {
 		m.DecoyLines = append(m.DecoyLines, bodyFirst+d)
+	}
+	for _, d := range out.elif {
+		m.ElseIfLines = append(m.ElseIfLines, bodyFirst+d)
 	}
 	return m
 }
